@@ -24,6 +24,8 @@ package dns
 //@   assert at "if requestMAC != @1" id: msgbuf[0] == rr.OrigId / 256 && msgbuf[1] == rr.OrigId % 256
 //@   assert at "n, err := packMacWire(m, buf)" macvars: m.MACSize == (len(requestMAC) / 2) % 65536 && m.MAC == requestMAC
 //@   assert at "n, err := packTimerWire(tsig, tsigvar)" timervars: tsig.TimeSigned == rr.TimeSigned && tsig.Fudge == rr.Fudge
+//@   assert at "tsig.Class = ClassANY" keyname: tsig.Name == callres("CanonicalName") && callarg("CanonicalName", 0) == rr.Hdr.Name
+//@   assert at "tsig.Error = rr.Error" algname: tsig.Algorithm == callres("CanonicalName") && callarg("CanonicalName", 0) == rr.Algorithm
 //@   assert at "n, err := packTsigWire(tsig, tsigvar)" tsigvars: tsig.Class == 255 && tsig.Ttl == rr.Hdr.Ttl && tsig.TimeSigned == rr.TimeSigned && tsig.Fudge == rr.Fudge && tsig.Error == rr.Error && tsig.OtherLen == rr.OtherLen && tsig.OtherData == rr.OtherData
 //@   exit macpart: ret1 == nil && len(requestMAC) > 0 ==> len(ret0) == 2 + len(requestMAC) / 2 + len(msgbuf) + len(tsigvar)
 //@   exit nomac:  ret1 == nil && len(requestMAC) == 0 ==> len(ret0) == len(msgbuf) + len(tsigvar)
